@@ -83,6 +83,9 @@ func c03Check(p vlib.Project, info *vlib.Info) *vlib.Failure {
 		if key, detail := diffKind(p, first, again); key != "" {
 			if strings.HasPrefix(key, "nondeterministic: diagnostic") && first.Err != nil {
 				key += ": " + normMsgKey(first.Err.Msg)
+				if hasRecursiveTypes(src) {
+					key = keyF27 // known: the schema library reports through a type picked in map order
+				}
 			}
 			return vlib.Failf(key, "run 1 and run %d of the same project differ: %s\n--- root file:\n%s", i+1, detail, vlib.StripCR(trunc(src, 3000)))
 		}
@@ -260,6 +263,11 @@ func TestC03(t *testing.T) {
 		_ = vlib.RunWithOptions(c.B, vlib.BanOption(c.K2...), shared)
 		r3 := resultKey(vlib.RunWithOptions(c.A, shared))
 		if r1 != fresh || r3 != fresh {
+			if strings.Contains(c.A, "regex") && strings.HasPrefix(fresh, "OK ") && strings.HasPrefix(r1, "OK ") && strings.HasPrefix(r3, "OK ") &&
+				vlib.MaskExamples(strings.SplitN(fresh[3:], "\n", 2)[0]) == vlib.MaskExamples(strings.SplitN(r1[3:], "\n", 2)[0]) &&
+				vlib.MaskExamples(strings.SplitN(fresh[3:], "\n", 2)[0]) == vlib.MaskExamples(strings.SplitN(r3[3:], "\n", 2)[0]) {
+				return vlib.Failf(vlib.KeyRegexExample, "results differ only in regex-derived examples")
+			}
 			return vlib.Failf("nondeterministic: reused option value", "the same project with the same options (ban %v) gives different results when the option value was used for other runs in between (ban %v)\n--- with a fresh option:\n%s\n--- first use:\n%s\n--- after other runs:\n%s\n--- source:\n%s", c.K1, c.K2, trunc(fresh, 300), trunc(r1, 300), trunc(r3, 300), c.A)
 		}
 		return nil
